@@ -267,3 +267,14 @@ Proof.
     apply strip_forget_doc. congruence.
   - intros Hm. apply (roundtrip_document_closed fl fl' s d ind); assumption.
 Qed.
+
+(* print_ast(node, indent=n): every integer indent is covered by the theorems *)
+Lemma int_indent_ws n : all_ws (indent_of_int n).
+Proof. unfold all_ws, indent_of_int. induction n; simpl; auto. Qed.
+
+Theorem roundtrip_int_indent fl fl' s d n :
+  parse_document fl s = Ok d ->
+  no_location fl' = true -> allow_type_system fl' = true ->
+  (fragment_variables fl = true -> fragment_variables fl' = true) ->
+  parse_document fl' (print_ast (indent_of_int n) true d) = Ok (strip_doc (forget_member_descriptions d)).
+Proof. intros Hp. apply (roundtrip_document_total fl fl' s d _ Hp). apply int_indent_ws. Qed.
